@@ -143,6 +143,21 @@ func main() {
 		for _, g := range c.Ghosts {
 			x.ghosts[g.Name] = g
 		}
+		for _, hv := range c.HeapViews {
+			if x.heapViews == nil {
+				x.heapViews = map[string]*heapViewInfo{}
+			}
+			x.heapViews[hv.Recv] = &heapViewInfo{e: hv.E, pkg: spkgs[i]}
+		}
+		for _, sf := range c.SumFields {
+			if x.sumFields == nil {
+				x.sumFields = map[string][]string{}
+			}
+			parts := strings.SplitN(sf, ".", 2)
+			if len(parts) == 2 {
+				x.sumFields[parts[0]] = append(x.sumFields[parts[0]], parts[1])
+			}
+		}
 	}
 	// index functions
 	funcs := map[string]*ssa.Function{}
